@@ -92,7 +92,7 @@ def hex6 (n : Nat) : Msg :=
 /-- py_common.icao (`none` = Python `None`) -/
 def icao (m : Msg) : Option Msg :=
   let d := df m
-  if d = 11 ∨ d = 17 ∨ d = 18 then some (slice 2 8 m)
+  if d = 11 ∨ d = 17 ∨ d = 18 then some ((slice 2 8 m).map Char.toUpper)
   else if d = 0 ∨ d = 4 ∨ d = 5 ∨ d = 16 ∨ d = 20 ∨ d = 21 then
     let c0 := crc m true
     let c1 := hexToNatM (takeLast 6 m)
